@@ -391,7 +391,8 @@ func c20c(c *Ctx) {
 							}
 						}
 					}
-					endsAtCur := stripLoopTags(c.term(fn, call.Call.Args[1])) == "$0.curToken" || strings.HasSuffix(c.term(fn, call.Call.Args[1]), "$0.curToken)")
+					endT := regexpMust(`![A-Za-z0-9@_]+`).ReplaceAllString(c.term(fn, call.Call.Args[1]), "")
+					endsAtCur := endT == "$0.curToken" || strings.HasSuffix(endT, "$0.curToken)")
 					if startsAtCase && endsAtCur {
 						errOK = true
 					}
@@ -633,6 +634,30 @@ func c20e(c *Ctx) {
 		pos := c.W.Pos(call.Pos())
 		c.Check(hasLit(must, "-$2["+lbl+".Name.Value]#1"), fmt.Sprintf("renderStatements/label#%d/chunk-labels", i), pos, "label rendered only if it is not one of the script's generated chunk labels", "a script label is rendered without testing it against the generated chunk labels")
 		c.Check(hasLit(must, "-$3["+lbl+".Name.Value]#1"), fmt.Sprintf("renderStatements/label#%d/text-labels", i), pos, "label rendered only if it is not a text label", "a script label is rendered without testing it against the text labels")
+	}
+	// a label that is taken is an error, never skipped or rendered anyway: the branch on which
+	// either lookup succeeded ends in a failing return
+	for i, par := range []int{2, 3} {
+		if par < len(rs.Params) {
+			bad := foundNotRejected(rs, rs.Params[par])
+			c.Check(len(bad) == 0, fmt.Sprintf("renderStatements/taken-label-is-error#%d", i), c.W.FuncPos(rs), "a script label that clashes with a generated label ends in an error", "a script label that is found in the "+[]string{"chunk-label", "text-label"}[i]+" set is not always rejected: the branch on which the lookup succeeded can go on (the label would be dropped or defined twice, and a goto to it would land in generated code)")
+		}
+	}
+	// the sets only grow while they are built: nothing is taken out again
+	for _, f := range []*ssa.Function{rc, emit, rs} {
+		for _, ci := range callsIn(f) {
+			if calleeName(ci) != "builtin:delete" {
+				continue
+			}
+			m := ci.Common().Args[0]
+			mt, isMap := m.Type().Underlying().(*types.Map)
+			if !isMap {
+				continue
+			}
+			if st, isSt := mt.Elem().Underlying().(*types.Struct); isSt && st.NumFields() == 0 && types.Identical(mt.Key(), types.Typ[types.String]) {
+				c.Bad(fmt.Sprintf("%s/label-set-shrinks@%d", f.Name(), c.T(f).callOrd[ci]), c.W.Pos(ci.Pos()), f.Name()+" deletes "+pretty(c.term(f, ci.Common().Args[1]))+" from a label set: a script label of that name would no longer be rejected")
+			}
+		}
 	}
 	// errors on the clash paths carry the label token
 	for _, r := range returnsOf(rs) {
